@@ -43,23 +43,54 @@ trait Vp: MatX<Q> + Copy {
     fn v2w(fl: Flavour, p: Vec3<Q>, mv: Self, proj: Self, vp: Rect<Q, Q>) -> Vec3<Q>;
     fn pick(c: Vec2<Q>, d: Vec2<Q>, vp: Rect<Q, Q>) -> Self;
 }
+// The point arguments are `Into<Vec3>` / `Into<Vec2>`: the argument form rotates through every
+// conversion a caller can use (vector, (Vec2, depth) pair, array, tuple, Vec4 with a w to drop, extent).
+thread_local!(static ARG_FORM: std::cell::Cell<u64> = std::cell::Cell::new(0));
+fn set_arg_form(f: u64) {
+    ARG_FORM.with(|c| c.set(f));
+}
+macro_rules! with_v3_form {
+    ($p:expr, |$a:ident| $call:expr) => {{
+        let p: Vec3<Q> = $p;
+        match ARG_FORM.with(|c| c.get()) % 6 {
+            0 => { let $a = p; $call }
+            1 => { let $a = (Vec2 { x: p.x, y: p.y }, p.z); $call }
+            2 => { let $a = [p.x, p.y, p.z]; $call }
+            3 => { let $a = (p.x, p.y, p.z); $call }
+            4 => { let $a = vek::vec::repr_c::Vec4 { x: p.x, y: p.y, z: p.z, w: Q::int(7) }; $call }
+            _ => { let $a = vek::vec::repr_c::Extent3 { w: p.x, h: p.y, d: p.z }; $call }
+        }
+    }};
+}
+macro_rules! with_v2_form {
+    ($c:expr, $d:expr, |$a:ident, $b:ident| $call:expr) => {{
+        let (c, d): (Vec2<Q>, Vec2<Q>) = ($c, $d);
+        match ARG_FORM.with(|c| c.get()) % 5 {
+            0 => { let ($a, $b) = (c, d); $call }
+            1 => { let ($a, $b) = ([c.x, c.y], [d.x, d.y]); $call }
+            2 => { let ($a, $b) = ((c.x, c.y), (d.x, d.y)); $call }
+            3 => { let ($a, $b) = (vek::vec::repr_c::Extent2 { w: c.x, h: c.y }, vek::vec::repr_c::Extent2 { w: d.x, h: d.y }); $call }
+            _ => { let ($a, $b) = (Vec3 { x: c.x, y: c.y, z: Q::int(5) }, Vec3 { x: d.x, y: d.y, z: Q::int(-3) }); $call }
+        }
+    }};
+}
 macro_rules! impl_vp {
     ($M:ident) => {
         impl Vp for $M<Q> {
             fn w2v(fl: Flavour, p: Vec3<Q>, mv: Self, proj: Self, vp: Rect<Q, Q>) -> Vec3<Q> {
                 match fl {
-                    NO => $M::<Q>::world_to_viewport_no(p, mv, proj, vp),
-                    ZO => $M::<Q>::world_to_viewport_zo(p, mv, proj, vp),
+                    NO => with_v3_form!(p, |a| $M::<Q>::world_to_viewport_no(a, mv, proj, vp)),
+                    ZO => with_v3_form!(p, |a| $M::<Q>::world_to_viewport_zo(a, mv, proj, vp)),
                 }
             }
             fn v2w(fl: Flavour, p: Vec3<Q>, mv: Self, proj: Self, vp: Rect<Q, Q>) -> Vec3<Q> {
                 match fl {
-                    NO => $M::<Q>::viewport_to_world_no(p, mv, proj, vp),
-                    ZO => $M::<Q>::viewport_to_world_zo(p, mv, proj, vp),
+                    NO => with_v3_form!(p, |a| $M::<Q>::viewport_to_world_no(a, mv, proj, vp)),
+                    ZO => with_v3_form!(p, |a| $M::<Q>::viewport_to_world_zo(a, mv, proj, vp)),
                 }
             }
             fn pick(c: Vec2<Q>, d: Vec2<Q>, vp: Rect<Q, Q>) -> Self {
-                $M::<Q>::picking_region(c, d, vp)
+                with_v2_form!(c, d, |a, b| $M::<Q>::picking_region(a, b, vp))
             }
         }
     };
@@ -345,6 +376,7 @@ fn scene_hash<M: MatX<Q>>(api: &str, s: &Scene) -> u64 {
 
 fn project_case<M: Vp>(sub: &mut Sub, cfg: &Config, idx: u64) {
     let mut rng = Rng::for_case("world_to_viewport", cfg.case_seed(), idx);
+    set_arg_form(idx);
     let s = gen_scene(&mut rng);
     let _ = take_poison();
     let (mv, proj) = (M::from_fn(|i, j| s.mv[i][j]), M::from_fn(|i, j| s.proj[i][j]));
@@ -398,6 +430,7 @@ fn project_case<M: Vp>(sub: &mut Sub, cfg: &Config, idx: u64) {
 fn unproject_case<M: Vp>(sub: &mut Sub, cfg: &Config, idx: u64, round_trip: bool) {
     let name = if round_trip { "round_trip" } else { "viewport_to_world" };
     let mut rng = Rng::for_case(name, cfg.case_seed(), idx);
+    set_arg_form(idx);
     let s = gen_scene(&mut rng);
     let _ = take_poison();
     let (mv, proj) = (M::from_fn(|i, j| s.mv[i][j]), M::from_fn(|i, j| s.proj[i][j]));
@@ -466,6 +499,7 @@ fn unproject_case<M: Vp>(sub: &mut Sub, cfg: &Config, idx: u64, round_trip: bool
 // ------------------------------------------------------------------ sub-check: picking_region
 
 fn picking_case<M: Vp>(sub: &mut Sub, cfg: &Config, idx: u64) {
+    set_arg_form(idx);
     let mut rng = Rng::for_case("picking_region", cfg.case_seed(), idx);
     let vp = gen_viewport(&mut rng);
     let two = Q::int(2);
@@ -541,6 +575,7 @@ fn picking_case<M: Vp>(sub: &mut Sub, cfg: &Config, idx: u64) {
 }
 
 fn picking_panic_case<M: Vp>(sub: &mut Sub, cfg: &Config, idx: u64) {
+    set_arg_form(idx);
     let mut rng = Rng::for_case("picking_region_panics", cfg.case_seed(), idx);
     let vp = gen_viewport(&mut rng);
     let c = [small_q(&mut rng, 8, 4), small_q(&mut rng, 8, 4)];
